@@ -18,7 +18,6 @@ NA = {
     'C24': 'server behaviour under arbitrary requests, panics across spawn_blocking; no per-call contract within reach',
     'C25': 'cross-front-end equivalence of whole programs (CLI process, HTTP server, FFI) is not a function contract',
     'C27': 'async task and IndexedDB orderings, wasm32 only; no verifier here targets wasm32/JS interop',
-    'C28': 'a frame condition over the file system (which paths are touched), outside both verifiers',
     'C29': 'non-default feature; similarity uses sqrt (not modelled), HNSW and candidate maps are HashMap code',
 }
 
